@@ -515,6 +515,8 @@ func (h *hist) classifySecondPass(a, b vh.Snap) (known, unknown []string) {
 	m := w.Repos["r"]
 	changed := map[string]bool{}
 	lostContent := map[string]bool{}
+	h.rm0 = nil
+	orph := h.orphans()
 	for _, mm := range w.U.Mans {
 		d := mm.D
 		if a.Man[d] == b.Man[d] {
@@ -522,7 +524,7 @@ func (h *hist) classifySecondPass(a, b vh.Snap) (known, unknown []string) {
 		}
 		changed[d] = true
 		switch {
-		case a.Man[d] == "ok" && b.Man[d] == "404" && m.Adopted[d]:
+		case a.Man[d] == "ok" && b.Man[d] == "404" && m.Mans[d] != nil && (orph[d] || h.k6Vulnerable(mm)):
 			// lived only in a child list kept in memory; the reload dropped it (K1, or K6 when its parent was a referrers answer)
 			if mm.Subject != "" {
 				known = append(known, "K6:second-pass")
@@ -764,6 +766,31 @@ func (h *hist) step() {
 		if rs.Status == 202 && mm.Subject != "" {
 			h.touched[mm.Subject] = true
 		}
+	case k < 16:
+		// push a whole graph in dependency order by digest (children become implicit entries of their parents), then
+		// maybe tag the outermost index
+		var lastIdx *vh.Man
+		for _, mm := range u.Mans {
+			if mm.Subject == "" && m.ValidRefs(mm) {
+				rs, ok := w.PutManifest("r", mm, "")
+				if (rs.Status == 201) != ok {
+					h.bad = true
+					return
+				}
+				if rs.Status == 201 {
+					h.young[mm.D] = true
+				}
+				if mm.Index {
+					lastIdx = mm
+				}
+			}
+		}
+		if lastIdx != nil && rng.Intn(2) == 0 {
+			if rs, _ := w.PutManifest("r", lastIdx, u.Tags[rng.Intn(len(u.Tags))]); rs.Status == 201 {
+				h.young[lastIdx.D] = true
+			}
+		}
+		h.r.Count("graph_pushes", 1)
 	default:
 		h.collect()
 	}
@@ -775,7 +802,7 @@ func runHistory(r *vh.Run, focus string, i int) {
 	}
 	rng := r.Rand(i)
 	kind := []vh.StoreKind{vh.Mem, vh.Dir, vh.MemDir}[i%3]
-	u := vh.GenUniverse(rng, vh.UOpts{Aliasing: true, Algs: i%6 == 0, Tag: fmt.Sprint(i)})
+	u := vh.GenUniverse(rng, vh.UOpts{Aliasing: true, Algs: (i/3)%3 == 0, Docker: (i/3)%2 == 1, Tag: fmt.Sprint(i)})
 	root := ""
 	if kind != vh.Mem {
 		root = r.TempDir("gc")
